@@ -184,7 +184,11 @@ def run(ctx):
                     safe = lambda x: bytes(c for c in x if 0x20 < c < 0x7f and c not in b'*?') or b'x'
                     variants += [(None, [safe(nm)[:3] + b'*']), (rnd.choice([None, 2]), [b'*' + safe(nm)[-2:], b'?' * len(nm)]), (None, [b'no-such-name'])]
                     # wildcards of every shape (several stars in a row, stars next to '?', stars in the middle, near misses)
-                    variants += [(rnd.choice([None, None, 1, 2]), [listing.glob_from(rnd, rnd.choice(names)) for _ in range(rnd.choice([1, 1, 2]))]) for _ in range(2)]
+                    # (the tool's matcher backtracks: saying no costs about len^stars steps, and every wildcard meets every name of the
+                    # archive - so the number of stars goes down as the longest name goes up)
+                    longest = max(len(x) for x in names)
+                    nst = 4 if longest <= 80 else 2 if longest <= 300 else 1
+                    variants += [(rnd.choice([None, None, 1, 2]), [listing.glob_from(rnd, rnd.choice(names), stars=nst) for _ in range(rnd.choice([1, 1, 2]))]) for _ in range(2)]
             for quiet, pats in variants:
                 n += 1
                 mtime = rnd.choice([946684800, NOW - SIXM, NOW - SIXM + 1, NOW, 1])
@@ -197,6 +201,9 @@ def run(ctx):
             ctx.hist('archives_by_class', tag)
             if tp >= 2 ** 32 or ts >= 2 ** 32:
                 ctx.count('skipped_sum_wraps')
+                continue
+            if rc == -999:
+                ctx.count('inconclusive_watchdog')         # the 60 s wall-clock watchdog of the runner: no verdict either way
                 continue
             if rc < 0:
                 ctx.violation('C19-abnormal-exit', "'lha %s' ended by signal %d" % (arg, -rc), A)
